@@ -1,0 +1,53 @@
+// Copyright 2023 StreamNative, Inc.
+//
+// Licensed under the Apache License, Version 2.0 (the "License");
+// you may not use this file except in compliance with the License.
+// You may obtain a copy of the License at
+//
+//     http://www.apache.org/licenses/LICENSE-2.0
+//
+// Unless required by applicable law or agreed to in writing, software
+// distributed under the License is distributed on an "AS IS" BASIS,
+// WITHOUT WARRANTIES OR CONDITIONS OF ANY KIND, either express or implied.
+// See the License for the specific language governing permissions and
+// limitations under the License.
+
+//go:build verif
+
+package oxia
+
+import (
+	"github.com/oxia-db/oxia/oxia/internal"
+	"github.com/oxia-db/oxia/proto"
+)
+
+// VerifRouter exposes the client-side key routing (internal.ShardManager with the real shard
+// strategy) to the external verification harness, which cannot import oxia/internal.
+type VerifRouter struct {
+	sm    internal.ShardManager
+	apply func(*proto.ShardAssignments) error
+}
+
+func VerifNewRouter(namespace string) *VerifRouter {
+	sm, apply := internal.VerifNewShardManager(namespace)
+	return &VerifRouter{sm: sm, apply: apply}
+}
+
+// Apply feeds one shard-assignments message to the shard manager, as its receive loop does.
+func (r *VerifRouter) Apply(assignments *proto.ShardAssignments) error {
+	return r.apply(assignments)
+}
+
+// Shard is the shard the client sends requests for this key (or partition key) to.
+func (r *VerifRouter) Shard(key string) int64 {
+	return r.sm.Get(key)
+}
+
+// Shards lists the shards the client currently knows.
+func (r *VerifRouter) Shards() []int64 {
+	return r.sm.GetAll()
+}
+
+func (r *VerifRouter) Close() error {
+	return r.sm.Close()
+}
